@@ -315,6 +315,7 @@ theorem create_eq (db : Db) (cls : Cls) (q : Qty) (x : PyVal) :
 
 def PyVal.isTuple : PyVal → Bool
   | .seq .tuple _ => true
+  | .rows .tuple _ => true
   | _ => false
 
 /-- only Scalar looks for a tuple -/
@@ -327,6 +328,7 @@ theorem construct_eq (db : Db) (cls : Cls) (a1 a2 : PyVal) (a3 : Atom)
     simp only [construct, dimGuard, scalarInit]
     split
     · simp [PyVal.isTuple] at h'
+    · simp [PyVal.isTuple] at h'
     · rfl
   | array => rfl
   | fixed d => rfl
@@ -336,6 +338,7 @@ theorem isValueFor_notNone {cls : Cls} {x : PyVal} (h : x.isValueFor cls = true)
   cases x with
   | atom a => cases a <;> simp_all [PyVal.isValueFor, PyVal.isNone]
   | seq k l => rfl
+  | rows k l => rfl
   | fv n f => rfl
   | qty q => rfl
 
@@ -343,6 +346,7 @@ theorem isValueFor_notTuple {x : PyVal} (h : x.isValueFor .scalar = true) : x.is
   cases x with
   | atom a => rfl
   | seq k l => cases k <;> simp_all [PyVal.isValueFor, PyVal.isTuple]
+  | rows k l => cases k <;> simp_all [PyVal.isValueFor, PyVal.isTuple]
   | fv n f => rfl
   | qty q => rfl
 
@@ -353,6 +357,7 @@ theorem abstractInit_value_first (db : Db) (cls cls' : Cls) {x : PyVal} (h : x.i
   cases x with
   | atom a => cases a <;> simp_all [PyVal.isValueFor, abstractInit, juggle]
   | seq k l => simp [abstractInit, juggle]
+  | rows k l => simp [abstractInit, juggle]
   | fv n f => simp [abstractInit, juggle]
   | qty q => simp [PyVal.isValueFor] at h
 
@@ -410,11 +415,30 @@ theorem atomsEq_symm : ∀ l m : List Atom, atomsEq l m = atomsEq m l
   | _ :: _, [] => rfl
   | a :: as, b :: bs => by simp only [atomsEq, atomEq_symm a b, atomsEq_symm as bs]
 
+theorem elemEq_refl (a : Elem) : elemEq a a = true := by
+  cases a <;> simp [elemEq, atomEq_refl, atomsEq_refl]
+
+theorem elemsEq_refl : ∀ l : List Elem, elemsEq l l = true
+  | [] => rfl
+  | a :: as => by simp [elemsEq, elemEq_refl a, elemsEq_refl as]
+
+theorem elemEq_symm (a b : Elem) : elemEq a b = elemEq b a := by
+  cases a <;> cases b <;> simp only [elemEq]
+  · exact atomEq_symm ..
+  · exact atomsEq_symm ..
+
+theorem elemsEq_symm : ∀ l m : List Elem, elemsEq l m = elemsEq m l
+  | [], [] => rfl
+  | [], _ :: _ => rfl
+  | _ :: _, [] => rfl
+  | a :: as, b :: bs => by simp only [elemsEq, elemEq_symm a b, elemsEq_symm as bs]
+
 /-- `pyTuple` can only fail with a `TypeError` -/
 theorem pyTuple_error {v : PyVal} {e : ErrKind} (h : pyTuple v = .error e) : e = .type := by
   cases v with
   | atom a => cases a <;> simp_all [pyTuple]
   | seq k l => simp [pyTuple] at h
+  | rows k l => simp [pyTuple] at h
   | fv n f => simp_all [pyTuple]
   | qty q => simp_all [pyTuple]
 
@@ -431,7 +455,7 @@ theorem arrayEq_symm (q1 : Qty) (v1 : PyVal) (q2 : Qty) (v2 : PyVal) :
     cases h2 : pyTuple v2 with
     | error e2 => rfl
     | ok t2 =>
-      simp only [atomsEq_symm t1 t2]
+      simp only [elemsEq_symm t1 t2]
       rw [@BEq.comm _ _ _ q1 q2, @BEq.comm _ _ _ q1.unit q2.unit]
 
 end Barril.Ctor
